@@ -1,16 +1,16 @@
 SPECIFICATION Spec
 CONSTANTS
-  Masters = {1, 2, 3, 4}
+  Masters = {1, 2, 3}
   Nodes = {1}
   Rules <- AllRules
-  Cfg <- CfgPoA3
+  Cfg <- CfgEnd3
   MaxLive = 3
   MaxNum = 1
-  MaxNow = 2
+  MaxNow = 1
   MaxTx = 1
   MaxBal = 2
-  Kinds <- KindsSibT
-  Ords <- OrdId4
+  Kinds <- KindsSibM
+  Ords <- OrdId3
   Window = TRUE
   NumOf <- Flat
 INVARIANT TypeOK
